@@ -130,7 +130,8 @@ Inductive constr :=
 | CKindEqOut (i o : nat)      (* driver of input i has the interpretation of own output o      *)
 | CWidthLeOut (i o : nat)     (* driver of input i is not wider than own output o              *)
 | CWidthIn (i : nat) (w : N)  (* driver of input i has width w                                 *)
-| CWidthGe (i : nat) (w : N). (* driver of input i has at least width w (rewire range)         *)
+| CWidthGe (i : nat) (w : N)  (* driver of input i has at least width w (rewire range)         *)
+| CWidthEqIn (i j : nat).     (* drivers of inputs i and j have the same width                 *)
 
 Definition constr_ok (tin tout : nat -> option ctype) (c : constr) : bool :=
   match c with
@@ -161,6 +162,11 @@ Definition constr_ok (tin tout : nat -> option ctype) (c : constr) : bool :=
       end
   | CWidthIn i w => match tin i with Some t => N.eqb (ct_width t) w | None => true end
   | CWidthGe i w => match tin i with Some t => N.leb w (ct_width t) | None => true end
+  | CWidthEqIn i j =>
+      match tin i, tin j with
+      | Some t, Some t' => N.eqb (ct_width t) (ct_width t')
+      | _, _ => true
+      end
   end.
 
 (* ------------------------------------------------------------------------------------------ *)
@@ -763,6 +769,8 @@ Definition invd_check (g : graph) : bool := inv_check g && drivers_check g.
 (*   Node_Register::connectInput            : DATA, RESET_VALUE set the output type           *)
 (*   Node_Compare / Node_Arithmetic         : same interpretation; arithmetic output = max width *)
 (*   Node_Shift::connectOperand, Node_PriorityConditional, Node_Rewire (ranges inside the input) *)
+(*   Node_MemPort::connectAddress (address = Log2C(depth) bits), data width, 1 bit enables;    *)
+(*   Node_Memory initialization data width                                                      *)
 (* ------------------------------------------------------------------------------------------ *)
 Inductive kind :=
 | KOther
@@ -775,7 +783,9 @@ Inductive kind :=
 | KShift
 | KPrio (nchoices : nat)
 | KPinOut (w : N)
-| KRewire (ranges : list (nat * N)).   (* (input index, offset + subwidth) of every INPUT range *)
+| KRewire (ranges : list (nat * N))    (* (input index, offset + subwidth) of every INPUT range *)
+| KMemPort (abits dbits : N)           (* Node_MemPort: getExpectedAddressBits() = Log2C(depth), getBitWidth() *)
+| KMemory (initw : N).                 (* Node_Memory: getInitializationDataWidth() *)
 
 Fixpoint pairs_from (i : nat) (js : list nat) : list constr :=
   match js with
@@ -796,10 +806,14 @@ Definition kind_req (k : kind) : list constr :=
   | KLogic2 => [CEqIn 0 1; CEqOut 0 0; CEqOut 1 0]
   | KMux n => map (fun k => CEqOut (S k) 0) (seq 0 n)
   | KReg => [CEqOut 0 0; CEqOut 1 0; CWidthIn 2 1]
-  | KCompare => [CKindEqIn 0 1]
+  | KCompare => [CKindEqIn 0 1; CWidthEqIn 0 1]
   | KArith n => all_pairs (seq 0 n) ++ map (fun i => CKindEqOut i 0) (seq 0 n) ++ map (fun i => CWidthLeOut i 0) (seq 0 n)
   | KShift => [CEqOut 0 0]
   | KPrio n => CEqOut 0 0 :: map (fun k => CEqOut (2 + 2 * k) 0) (seq 0 n)
   | KPinOut w => [CWidthIn 0 w]
   | KRewire rs => map (fun r => CWidthGe (fst r) (snd r)) rs
+  (* Node_MemPort::Inputs: enable 0, wrEnable 1, address 2, wrData 3; connectAddress asserts the address width, the
+     simulator reads address / data with exactly these widths *)
+  | KMemPort ab db => [CWidthIn 0 1; CWidthIn 1 1; CWidthIn 2 ab; CWidthIn 3 db]
+  | KMemory w => [CWidthIn 0 w]        (* INITIALIZATION_DATA *)
   end.
